@@ -139,6 +139,17 @@ def corpus(rng, n):
             else:
                 text = gen.render_sections([(n_, ["  0 = N 5 0", "  0 = N 0 0"] if n_ not in ("Song", "SyncTrack", "Events") else b) for n_, b in secs])
             texts.append({"text": text, "want": None, "res": c["truth"]["resolution"], "kind": "failing:" + stage})
+    # a pair sharing line texts across section kinds: in X the lines sit where they are unparsable (instrument lines in [Events] and
+    # [SyncTrack], quoted event lines in a track), X also fails in the end; in Y the very same lines sit where they are valid
+    shared_n = ["  768 = E solo", "  768 = N 2 96", "  960 = S 2 192", "  1152 = E soloend"]
+    shared_g = ["  384 = E \"section Verse 1\"", "  768 = E \"lyric Hel-\""]
+    sync = ["  0 = TS 4", "  0 = B 120000", "  768 = B 90000"]
+    x = gen.render_sections([("Song", ["  Resolution = 192"]), ("SyncTrack", sync + shared_n[:2]), ("Events", shared_n + ["  0 = E \"x\""]),
+                             ("ExpertSingle", shared_g + ["  0 = N 5 0", "  0 = N 0 0"])])
+    y = gen.render_sections([("Song", ["  Resolution = 192"]), ("SyncTrack", sync), ("Events", shared_g),
+                             ("ExpertSingle", ["  0 = N 0 0"] + shared_n), ("HardSingle", shared_n[1:3])])
+    texts.append({"text": x, "want": None, "res": 192, "kind": "failing:track"})
+    texts.append({"text": y, "want": None, "res": 192, "kind": "valid"})
     # read-by-path variants: UTF-8 with BOM, UTF-8 with non-ASCII text, and bytes that are not UTF-8 (fails the same way everywhere)
     valid = [t for t in texts if t["kind"] == "valid" and t["want"] is None]
     if valid:
@@ -374,7 +385,7 @@ def run_shard(shard, rec, tier, seed):
             p = [0.02, 0.002, 0.2][r % 3]
             small = [k for k, t in enumerate(texts) if len(t["text"]) < 14000] or list(range(len(texts)))
             # cold start: every thread's first parse is the text with the longest phrase run, all at the same time
-            first = len(small) - 1 if cold and r == 0 else None
+            first = len(small) - 1 if (cold and r == 0 and shard["name"][-1] in "02468") else None  # other cold shards: different first texts
             threaded_round(rec, [texts[k] for k in small], [base[k] for k in small], nthreads, p, f"{seed}/{shard['name']}/{r}",
                            2 if nthreads >= 8 else (3 if cold else 5), first=first)
             if cold and r == 0:
